@@ -42,14 +42,20 @@ def main():
         try:
             dst = os.path.join(tmp, "repo")
             shutil.copytree(REPO, dst, ignore=shutil.ignore_patterns(".git", "__pycache__", "*.pyc", "docs", "examples"))
-            fp = os.path.join(dst, m["file"])
-            src = open(fp).read()
-            if src.count(m["old"]) != 1:
-                print(f"{m['name']}: SKIP (pattern occurs {src.count(m['old'])}x in {m['file']})")
-                report[m["name"]] = {"status": "pattern-mismatch"}
-                rc = 1
+            edits = m.get("edits") or [{"file": m["file"], "old": m["old"], "new": m["new"]}]
+            bad = False
+            for e in edits:
+                fp = os.path.join(dst, e["file"])
+                src = open(fp).read()
+                if src.count(e["old"]) != 1:
+                    print(f"{m['name']}: SKIP (pattern occurs {src.count(e['old'])}x in {e['file']})")
+                    report[m["name"]] = {"status": "pattern-mismatch"}
+                    rc = 1
+                    bad = True
+                    break
+                open(fp, "w").write(src.replace(e["old"], e["new"]))
+            if bad:
                 continue
-            open(fp, "w").write(src.replace(m["old"], m["new"]))
             tests_ok = None
             if a.tests:
                 r = subprocess.run(["/venv/bin/python", "-m", "pytest", "-q", "-x", "-p", "no:cacheprovider",
